@@ -208,13 +208,15 @@ def _streams_info(pack_pos, pack_sizes, folders, unpack_sizes, substreams=None) 
     return b + b"\0"
 
 
-def sevenzip(files, coders_per_folder=None, solid=True, encode_header=None, dirs=(), out=None) -> bytes:
+def sevenzip(files, coders_per_folder=None, solid=True, encode_header=None, dirs=(), out=None, header_pack=None) -> bytes:
     """files: list of (name, data).  All data is stored with the Copy coder; `coders_per_folder`
     (list of coder lists, one per folder) overrides the coder chain written in the header
     (e.g. [[(AES_CODER, props)]] declares the folder AES-encrypted; payload stays as given).
     solid=True: one folder holding all files; False: one folder per file.
     encode_header: None | coder list -> the header itself is wrapped in an EncodedHeader whose
-    folder uses that coder chain (Copy = b"\\0" keeps it readable; AES = header encryption)."""
+    folder uses that coder chain (Copy = b"\\0" keeps it readable; AES = header encryption).
+    header_pack: None | callable(plain header bytes) -> stored bytes: the EncodedHeader's packed stream really is
+    the header compressed by that function (what `7z a` writes by default: an LZMA-compressed, NOT encrypted header)."""
     files = list(files)
     nonempty = [(n, d) for n, d in files if d]
     packed = b"".join(d for _, d in nonempty)
@@ -263,8 +265,11 @@ def sevenzip(files, coders_per_folder=None, solid=True, encode_header=None, dirs
         out["header"] = hdr            # the plain header (what an EncodedHeader folder wraps)
     if encode_header is not None:
         enc_pos = len(body)
-        body += hdr
-        hdr = bytes([0x17]) + _streams_info(enc_pos, [len(hdr)], [encode_header], [[len(hdr)] * len(encode_header)])
+        stored = header_pack(hdr) if header_pack is not None else hdr
+        if out is not None:
+            out["stored_header"] = stored
+        body += stored
+        hdr = bytes([0x17]) + _streams_info(enc_pos, [len(stored)], [encode_header], [[len(hdr)] * len(encode_header)])
     start = struct.pack("<QQI", len(body), len(hdr), zlib.crc32(hdr) & 0xFFFFFFFF)
     sig = b"7z\xbc\xaf\x27\x1c" + bytes([0, 4]) + struct.pack("<I", zlib.crc32(start) & 0xFFFFFFFF) + start
     return sig + body + hdr
@@ -410,6 +415,35 @@ def odf_package(kind: str, token: str, manifest: bytes | None, extra=(), content
     if manifest is not None:
         files.append(("META-INF/manifest.xml", manifest))
     return zip_plain(files, deflate=True)
+
+
+# ----------------------------------------------------------------------------- XML: the same document, other bytes
+def xml_physical_variants(raw: bytes):
+    """[(label, bytes)]: `raw` (UTF-8 / ASCII XML with an optional leading XML declaration) re-serialised in every way an XML 1.0
+    processor must (UTF-8, UTF-16) or commonly does (ISO-8859-1, US-ASCII) accept — SAME element tree, attribute values and text,
+    DIFFERENT bytes: a detector must not depend on what the description looks like as a byte string.
+    Validated each run (validate()): each variant parses to the tree of the original."""
+    import re
+    text = raw.decode("utf-8")
+    body = re.sub(r"^\s*<\?xml[^>]*\?>", "", text, count=1)
+    out = []
+
+    def decl(enc, q='"', extra=""):
+        return f"<?xml version={q}1.0{q} encoding={q}{enc}{q}{extra}?>"
+
+    out.append(("UTF-16 little-endian with byte-order mark, declared UTF-16", b"\xff\xfe" + (decl("UTF-16") + body).encode("utf-16-le")))
+    out.append(("UTF-16 big-endian with byte-order mark, declared utf-16", b"\xfe\xff" + (decl("utf-16") + body).encode("utf-16-be")))
+    out.append(("UTF-16 with byte-order mark, no XML declaration", b"\xff\xfe" + body.encode("utf-16-le")))
+    out.append(("UTF-16 with byte-order mark, declaration without encoding", b"\xff\xfe" + ('<?xml version="1.0"?>' + body).encode("utf-16-le")))
+    out.append(("UTF-8 with byte-order mark", b"\xef\xbb\xbf" + (decl("UTF-8") + body).encode("utf-8")))
+    out.append(("UTF-8, no XML declaration", body.encode("utf-8")))
+    out.append(("UTF-8, single-quoted declaration with standalone", (decl("utf-8", "'", " standalone='yes'") + body).encode("utf-8")))
+    if all(ord(ch) < 128 for ch in body):
+        out.append(("declared ISO-8859-1", (decl("ISO-8859-1") + body).encode("latin-1")))
+        out.append(("declared US-ASCII", (decl("US-ASCII") + body).encode("ascii")))
+    out.append(("UTF-8, comment and processing instruction before the root, line breaks between the elements",
+                (decl("UTF-8") + "\n<!-- generated -->\n<?app hint?>\n" + body.replace("><", ">\n  <") + "\n<!-- end -->\n").encode("utf-8")))
+    return out
 
 
 # ----------------------------------------------------------------------------- EPUB
